@@ -996,6 +996,13 @@ class Tr:
                 tgt, val = s.targets[0], s.value
             else:
                 raise Untranslatable("__init__: statement " + type(s).__name__)
+            if isinstance(tgt, ast.Name):
+                # a local of the constructor (hoisted subexpression): kept symbolic
+                v = self.ev(val, st)
+                if st.pend:
+                    raise Untranslatable(f"__init__: local {tgt.id} computed by an expression that can raise")
+                st.env[tgt.id] = v
+                continue
             if not (isinstance(tgt, ast.Attribute) and isinstance(tgt.value, ast.Name) and tgt.value.id == "self"):
                 raise Untranslatable("__init__: assignment to something other than an attribute of self")
             at = tgt.attr
@@ -1014,7 +1021,7 @@ class Tr:
                     st.selfattrs[at] = Val(co(v, fty), fty)
                 continue
             if at in DERIVED:
-                derived[at] = (val, dict(st.selfattrs))
+                derived[at] = (val, dict(st.selfattrs), dict(st.env))
                 continue
             raise Untranslatable(f"__init__: attribute {at} (outside the translated fragment)")
         missing = [k for k in FIELDS if k not in st.selfattrs]
@@ -1030,14 +1037,14 @@ class Tr:
                 f"def init (lin : α → α → Nat → List α) {pbind} : Lat α β :=\n  {{ {fields} }}\n")
         # derived attributes: one definition each, as functions of the constructor arguments
         for at in DERIVED:
-            val, attrs = derived[at]
+            val, attrs, env_at = derived[at]
             self.cur = ("__init__." + at, ("attr_" + at, [], "INFER", False, False))
             self.cur_self_const = False
             self.infer_opt = isinstance(val, ast.IfExp)
             self.inferred = set()
             before = set(self.uses)
             self.uses = set()
-            s2 = St(dict(env), None, selfattrs=attrs)
+            s2 = St(dict(env_at), None, selfattrs=attrs)
             self.ntmp = 0
             body = self.ret(val, s2, 1)
             if len(self.inferred) != 1:
@@ -1067,7 +1074,7 @@ set_option linter.unusedVariables false
 namespace SparkxVerif.Gen.Lattice3D
 open SparkxVerif.Lattice (Err Lat pyGet searchRight searchLeft argminFirst absG ndindex npMeanAxis0)
 
-variable {α β M : Type} [LT α] [LE α] [DecidableLT α] [DecidableLE α] [Sub α] [Neg α] [NatCast α] [Mul α] [Div α]
+variable {α β M : Type} [LT α] [LE α] [DecidableLT α] [DecidableLE α] [Add α] [Sub α] [Neg α] [NatCast α] [Mul α] [Div α]
   [Add β] [Sub β] [Mul β] [Div β] [NatCast β]
 """
 
